@@ -2044,6 +2044,8 @@ fn stale_catchup(ctx: &mut Ctx, slack: u64) {
         let mut expected: Vec<u64> = (0..2 * per).filter(|i| !sacrificed.contains(i) && *i != victim).collect();
         expected.extend(filler);
         expected.sort();
+        // no merge thread outlives the scenario
+        let _ = w.wait_merging_threads();
         Some(Out { t, c0, rd, rc, victim, sacrificed, published, expected })
     }));
     tantivy::verif::set_segment_cut_docs(0);
